@@ -195,7 +195,13 @@ def gen_strings_for(rng, ts, n, big=False, missing_p=0.0):
         out = []
         base = [''.join(rng.choice(alpha) for _ in range(rng.randint(0, 10))) for _ in range(max(1, n // 2))]
         for _ in range(n):
-            if rng.random() < 0.5:
+            c0 = rng.random()
+            if c0 < 0.12 and out:
+                out.append(rng.choice(out))         # exact duplicates: the only qualifying pairs at threshold 0
+            elif c0 < 0.2:
+                ch = rng.choice(alpha)               # runs of one character: the same q-gram many times
+                out.append(ch * rng.randint(1, 7) + ''.join(rng.choice(alpha) for _ in range(rng.randint(0, 2))))
+            elif c0 < 0.6:
                 s = list(rng.choice(base))
                 for _ in range(rng.randint(0, 3)):
                     c = rng.random()
@@ -395,8 +401,14 @@ def suite_suffix_internals(rng, n, stats):
         t, _ = gen_threshold(rng)
         f = SuffixFilter(ts.obj, m, t)
         u = rng.randint(3, 14)
-        l = sorted(rng.sample(range(1, u + 1), rng.randint(0, u)))
-        r = sorted(rng.sample(range(1, u + 1), rng.randint(1, u)))
+        if rng.random() < 0.35:
+            # weakly sorted lists with repeated tokens (what q-gram bags give under EDIT_DISTANCE)
+            l = sorted(rng.choice(range(1, u + 1)) for _ in range(rng.randint(0, u)))
+            r = sorted(rng.choice(range(1, u + 1)) for _ in range(rng.randint(1, u)))
+            stats.hit('suffix_internals.bags')
+        else:
+            l = sorted(rng.sample(range(1, u + 1), rng.randint(0, u)))
+            r = sorted(rng.sample(range(1, u + 1), rng.randint(1, u)))
         hmax = rng.randint(-2, 12)
         probe = rng.randint(0, u + 1)
         left = rng.randint(0, max(0, len(l) - 1)) if l else 0
